@@ -642,11 +642,6 @@ package io
 //@ guarded structEncoder.metadata by RWMutex
 
 // (assumed) field resolution: never nil, touches no coder lock
-//@ func getFieldMap
-//@   havoc
-//@   ensures result != nil
-//@ func getFields
-//@   havoc
 //@ func registerNamedStructDecoder
 //@   havoc
 //@ func registerNamedStructEncoder
@@ -797,3 +792,37 @@ package io
 //@   loop 2 invariant [memory_bytes] dec.reader == nil ==> forall(j, mem(dec.buf, j) == old(mem(dec.buf, j)))
 //@   loop 2 invariant [sticky] old(dec.Error) != nil ==> dec.Error != nil
 //@   loop 2 invariant [bufid] arr(dec.buf) == old(arr(dec.buf)) || isnew(arr(dec.buf))
+
+// ---- the field tables: every accessor that is stored is complete ---------------------------------
+//
+// (assumed) looking up / building the coder of a field type creates and caches coder objects; it
+// does not touch any slice of accessors
+//@ func fieldAlias
+//@   modifies nothing
+//@ func GetEncodeHandler
+//@   modifies nothing
+//@ func GetDecodeHandler
+//@   modifies nothing
+
+//@ func _getFields
+//@   prop C04
+//@   flag typeassert=panic
+//@   havoc
+//@   requires mapping != nil
+//@   requires [accessors_so_far_are_complete] forall(k, 0, len(fields), fields[k].Type != nil)
+//@   loop 1 invariant [accessors_so_far_are_complete] forall(k, 0, len(fields), fields[k].Type != nil)
+//@   ensures [every_accessor_is_complete] forall(k, 0, len(result), result[k].Type != nil)
+
+//@ func getFields
+//@   prop C04
+//@   flag typeassert=panic
+//@   havoc
+//@   ensures [every_accessor_is_complete] forall(k, 0, len(result), result[k].Type != nil)
+
+// the only store into a field table (the mapinv obligation is discharged here)
+//@ func getFieldMap
+//@   prop C04
+//@   flag typeassert=panic
+//@   havoc
+//@   modifies ghost.sm_has[*], ghost.sm_val[*]
+//@   loop 1 invariant forall(k, 0, len(fields), fields[k].Type != nil)
